@@ -145,13 +145,41 @@ def pileup_layout(rng):
     return rows, cols, ov, [1, 2, 3][:len(ov)], ags, P
 
 
+def crossed_layout(rng):
+    """Four or five encodings and a one-sided table with several keys whose partners appear only as
+    values (1 -> 3, 2 -> 4, ...): the symmetric closure must give every such partner its OWN reverse
+    entry (3 -> 1 only, 4 -> 2 only); on a crowded small grid random moves then try the crossed pairs
+    (3 onto 2, 4 onto 1), which the configured table forbids."""
+    rows, cols = rng.randint(2, 3), rng.randint(2, 3)
+    nenc = rng.choice([4, 4, 5])
+    ov = [[1, [3]], [2, [4]]]
+    if nenc == 5 and rng.random() < 0.5:
+        ov = [[1, [3, 5]], [2, [4]]]
+    if rng.random() < 0.3:                       # a self/cross entry, merged into the key's one row
+        k, v = rng.choice([1, 2]), rng.choice([1, 2])
+        for row in ov:
+            if row[0] == k and v not in row[1]:
+                row[1] = sorted(row[1] + [v])
+    rng.shuffle(ov)
+    cells = [(r, c) for r in range(rows) for c in range(cols)]
+    rng.shuffle(cells)
+    encs = list(range(1, nenc + 1))
+    want = [1, 2, 3, 4] + [rng.choice(encs) for _ in range(rng.randint(0, 2))]
+    ags = [gen_C11.wagent(e, cells[i], HD, rng.choice([None, 2])) for i, e in enumerate(want[:len(cells)])]
+    rng.shuffle(ags)
+    return rows, cols, ov, encs, ags
+
+
 def gen(tier, rng):
     quick = tier != "thorough"
     n_layouts = 700 if quick else 15000
     for _ in range(n_layouts):
         directed = None
-        if rng.random() < 0.12:
+        u = rng.random()
+        if u < 0.12:
             rows, cols, ov, encs, ags, directed = pileup_layout(rng)
+        elif u < 0.22:
+            rows, cols, ov, encs, ags = crossed_layout(rng)
         else:
             rows, cols, ov, encs, ags = gen_C11.random_layout(rng, quick)
         for a in ags:
